@@ -10,10 +10,10 @@ one contract with all invariants gave obligations with ~50 quantified hypotheses
   #source    every anchor in marks[N-1] is an anchor of THAT glyph
   #count     len(marks) == the largest component number among the glyph's counted anchors (gaps stay as empty components)
 """
-from pyvc.api import CONTRACTS, INT, STR, Dict, List, Loop, Ref, Runtime, Set, contract
+from pyvc.api import CONTRACTS, INT, STR, Dict, List, Loop, Ref, Runtime, Set, contract  # noqa
 
 from . import c06rt
-from .c06 import AL, KEYS, MARK2LIGA, NA, W, _ALL_ANCHORS, _at, _counted, _liga_glyph, _named
+from .c06 import AL, KEYS, MARK2LIGA, NA, W, _ALL_ANCHORS, _at, _bare, _counted, _liga_glyph, _named
 
 FN = W + "MarkFeatureWriter._makeMarkToLigaAttachments"
 APPEND = "result.append(MarkToLigaPos(glyphName, ligatureMarks))"
@@ -198,6 +198,100 @@ contract(
         OUTER: Loop(index="i", invariants={"count": _RES_COUNT}),
         INNER: Loop(index="j", invariants={"counted-in": _CNT_IN, "key-witness": _CNT_KEY.format(j="j")}),
         FILL: Loop(index="t", invariants={"len": "len(ligatureMarks) == t"}),
+    },
+    runtime=_RT,
+)
+
+# ---------------------------------------------------------------------------------------------------------------------
+# completeness: every named anchor numbered N that is not reset by a LATER bare '_N' of the same glyph is in marks[N-1].
+# Ghosts for the current glyph: lb[n] = position of the last bare '_n' seen so far (absent: none); mem[n] = the set of anchor objects in
+# componentAnchors[n]; for result[k]: lbs[k], mems[k] (the same at the end of that glyph's anchors).
+SET_NA2 = Set(NA)
+LB = Dict(INT, INT)
+MEM = Dict(INT, SET_NA2)
+
+
+def _kept(lb, x, b):
+    """named anchor x at position b is not reset by a later bare '_N' (lb: last bare position per number)"""
+    return f"({_named(x)} and not (({x}.number + 0) in {lb} and {lb}[{x}.number] > {b}))"
+
+
+_MEM_LIST = "all(n in componentAnchors and all(any(componentAnchors[n][m] == x for m in range(len(componentAnchors[n]))) for x in mem[n]) for n in mem)"
+_LM_MEM = "all(all(any(ligatureMarks[n - 1][m] == x for m in range(len(ligatureMarks[n - 1]))) for x in mem[n]) for n in mem)"
+
+_GK = f"{AL}[result[k].name]"
+contract(
+    FN,
+    name="complete",
+    **{**COMMON, "dict_key_positions": True},
+    ensures={
+        # a named anchor numbered N of the glyph that no LATER bare '_N' resets is in component N of the glyph's statement
+        "kept-anchors-in-their-component": f"all(result[k].name in {AL} and all(implies({_named(_GK + '[b]')} and not any({_bare(_GK + '[c]')} and {_GK}[c].number == {_GK}[b].number for c in range(b + 1, len({_GK}))),"
+        f" {_GK}[b].number <= len(result[k].marks) and any(result[k].marks[{_GK}[b].number - 1][m] == {_GK}[b] for m in range(len(result[k].marks[{_GK}[b].number - 1]))))"
+        f" for b in range(len({_GK}))) for k in range(len(result)))",
+    },
+    canaries={"never-empty": "len(result) > 0"},
+    locals={**LOCALS, "r0": List(MARK2LIGA), "ca0": Dict(INT, List(NA)), "lb": LB, "mem": MEM, "lbs": List(LB), "mems": List(MEM), "mem0": MEM, "mtmp": SET_NA2},
+    ghost_vars={**_R0, "mtmp": (SET_NA2, "set()"), "ca0": (Dict(INT, List(NA)), "{}"), "lb": (LB, "{}"), "mem": (MEM, "{}"), "lbs": (List(LB), "[]"), "mems": (List(MEM), "[]"),
+                "src": (List(INT), "[]"), "mem0": (MEM, "{}")},
+    ghost={**_R0_GHOST, "number = anchor.number": ["ca0 = {**componentAnchors}", "mem0 = {**mem}"],
+           "componentAnchors = {}": ["lb = {}", "mem = {}"],
+           SETBARE: ["lb = {**lb, number: j}", "mem = {**mem, number: set()}"],
+           SETAPP: ["mtmp = mem[number] if (number + 0) in mem else set()", "mtmp.add(anchor)", "mem = {**mem, number: mtmp}"],
+           APPEND: ["src = src + [i]", "lbs = lbs + [lb]", "mems = mems + [mem]"]},
+    hints={
+        APPEND: _APPENDED + [
+            "len(lbs) == len(r0) + 1 and len(mems) == len(r0) + 1 and len(src) == len(r0) + 1 and lbs[len(r0)] == lb and mems[len(r0)] == mem and src[len(r0)] == i",
+            f"all(implies({_kept('lb', 'anchors[b]', 'b')}, (anchors[b].number + 0) in mem and anchors[b] in mem[anchors[b].number]) for b in range(len(anchors)))",
+            # the invariant's clause for the new statement and for the earlier ones, in the shape of the invariant
+            f"all(implies(k == len(r0), all(implies({_kept('lbs[k]', AL + '[' + KEYS + '[src[k]]][b]', 'b')}, ({AL}[{KEYS}[src[k]]][b].number + 0) in mems[k] and {AL}[{KEYS}[src[k]]][b] in mems[k][{AL}[{KEYS}[src[k]]][b].number])"
+            f" for b in range(len({AL}[{KEYS}[src[k]]])))) for k in range(len(result)))",
+            f"all(implies(k < len(r0), all(implies({_kept('lbs[k]', AL + '[' + KEYS + '[src[k]]][b]', 'b')}, ({AL}[{KEYS}[src[k]]][b].number + 0) in mems[k] and {AL}[{KEYS}[src[k]]][b] in mems[k][{AL}[{KEYS}[src[k]]][b].number])"
+            f" for b in range(len({AL}[{KEYS}[src[k]]])))) for k in range(len(result)))",
+        ],
+        SETAPP: [
+            "all(implies(n != number, n in componentAnchors and componentAnchors[n] == ca0[n]) for n in ca0)",
+            "all(n in ca0 or n == number for n in componentAnchors)",
+            "(number + 0) in componentAnchors and componentAnchors[number] == (ca0[number] if (number + 0) in ca0 else []) + [anchor]",
+            "implies((number + 0) not in ca0, len(componentAnchors[number]) == 1 and componentAnchors[number][0] == anchor)",
+            "implies((number + 0) in ca0, len(componentAnchors[number]) == len(ca0[number]) + 1)",
+            "implies((number + 0) in ca0, componentAnchors[number][len(ca0[number])] == anchor)",
+            "implies((number + 0) in ca0, all(componentAnchors[number][m] == ca0[number][m] for m in range(len(ca0[number]))))",
+            "all(implies(n != number, n in mem and mem[n] == mem0[n]) for n in mem0) and all(n in mem0 or n == number for n in mem)",
+            "all(any(componentAnchors[number][m] == x for m in range(len(componentAnchors[number]))) for x in mem[number])",
+            # the invariant's clause for the updated entry and for the others, in the shape of the invariant
+            "all(implies(n == number, n in componentAnchors and all(any(componentAnchors[n][m] == x for m in range(len(componentAnchors[n]))) for x in mem[n])) for n in mem)",
+            "all(implies(n != number, n in componentAnchors and all(any(componentAnchors[n][m] == x for m in range(len(componentAnchors[n]))) for x in mem[n])) for n in mem)",
+        ],
+        SETBARE: [
+            "all(implies(n != number, n in componentAnchors and componentAnchors[n] == ca0[n]) for n in ca0)",
+            "all(n in ca0 or n == number for n in componentAnchors)",
+            "(number + 0) in componentAnchors and len(componentAnchors[number]) == 0",
+            "all(implies(n != number, n in mem and mem[n] == mem0[n]) for n in mem0) and all(n in mem0 or n == number for n in mem)",
+        ],
+        "for number in range(1, max(componentAnchors.keys()) + 1):": [
+            "len(ligatureMarks) == max(componentAnchors.keys())",
+            "all(n >= 1 and n <= len(ligatureMarks) for n in componentAnchors)",
+            "all(n >= 1 and n <= len(ligatureMarks) and ligatureMarks[n - 1] == componentAnchors[n] for n in mem)",
+            _LM_MEM,
+        ],
+    },
+    loops={
+        OUTER: Loop(index="i", invariants={
+            "len": "len(mems) == len(result) and len(lbs) == len(result) and len(src) == len(result)",
+            "src": f"all(0 <= src[k] and src[k] < i and result[k].name == {KEYS}[src[k]] for k in range(len(src)))",
+            "last-bare": f"all(all(0 <= lbs[k][n] and lbs[k][n] < len({AL}[{KEYS}[src[k]]]) and {_bare(AL + '[' + KEYS + '[src[k]]][lbs[k][n]]')} and {AL}[{KEYS}[src[k]]][lbs[k][n]].number == n for n in lbs[k]) for k in range(len(result)))",
+            "kept": f"all(all(implies({_kept('lbs[k]', AL + '[' + KEYS + '[src[k]]][b]', 'b')}, ({AL}[{KEYS}[src[k]]][b].number + 0) in mems[k] and {AL}[{KEYS}[src[k]]][b] in mems[k][{AL}[{KEYS}[src[k]]][b].number])"
+            f" for b in range(len({AL}[{KEYS}[src[k]]]))) for k in range(len(result)))",
+            "listed": "all(all(n >= 1 and n <= len(result[k].marks) and all(any(result[k].marks[n - 1][m] == x for m in range(len(result[k].marks[n - 1]))) for x in mems[k][n]) for n in mems[k]) for k in range(len(result)))",
+        }),
+        INNER: Loop(index="j", invariants={
+            "keys": "all(n in componentAnchors for n in mem) and all(n >= 1 for n in componentAnchors)",
+            "last-bare": "all(0 <= lb[n] and lb[n] < j and " + _bare("anchors[lb[n]]") + " and anchors[lb[n]].number == n for n in lb)",
+            "mem-listed": _MEM_LIST,
+            "kept": "all(implies(" + _kept("lb", "anchors[b]", "b") + ", (anchors[b].number + 0) in mem and anchors[b] in mem[anchors[b].number]) for b in range(j))",
+        }),
+        FILL: Loop(index="t", invariants={"len": "len(ligatureMarks) == t", "filled": _FILLED}),
     },
     runtime=_RT,
 )
